@@ -37,7 +37,8 @@ FAMILY = [
     {"name": "Base", "fields": [["x", ["Optional", "Int"]], ["t", ["Optional", "Str"]]]},
     {"name": "Mid", "base": "Base", "fields": [["y", ["Optional", "Int"]], ["l", ["Optional", ["List", "Int"]]]]},
     {"name": "Kid", "base": "Mid", "fields": [["z", ["Optional", "Bool"]]]},
-    {"name": "Rec", "fields": [["v", ["Optional", "Int"]], ["tags", ["Optional", ["Set", "Str"]]], ["nxt", ["Optional", ["Schema", "Rec"]]]]},
+    {"name": "Rec", "const": {"schemaVersion": 0, "deprecated": False},  # falsy constant values: constants are skipped by NAME, whatever their value
+     "fields": [["v", ["Optional", "Int"]], ["tags", ["Optional", ["Set", "Str"]]], ["nxt", ["Optional", ["Schema", "Rec"]]]]},
     {"name": "Top", "ld": {"context": "https://example.com/ctx", "type": "Top"},
      "fields": [["i", ["Optional", "Int"]], ["b", ["Optional", "Bool"]], ["fl", ["Optional", "Float"]], ["s", ["Optional", "Str"]],
                 ["e", ["Optional", ["Literal", "", "a"]]], ["q", ["Optional", "PintQuantity"]],
@@ -665,6 +666,18 @@ def run(tier: str, seed: int) -> dict:
             pool = WAYS if not has_tags(d) else WAYS_TAGGED + ["obj", "json", "file"]
             return pool[i % len(pool)]
 
+        # 0a. a second, separately generated family with the SAME class names (what re-executing a class statement or a
+        # generated class gives): every class has a partial class of its OWN (looked up by the class object, not by its name)
+        fam2 = sl.build_family(FAMILY, fresh=True)
+        for cname in sorted(fam):
+            for F_, tag in ((fam, "first"), (fam2, "second")):
+                K = F_[cname]
+                rec.case(("partial-src", cname, tag), nontrivial=True)
+                try:
+                    src = K.Partial.__partial_src__
+                except Exception as e:  # noqa
+                    src = f"{type(e).__name__}: {e}"
+                rec.check(src is K, "c14:partial-of-another-class", f"{cname} ({tag} generated family): {cname}.Partial.__partial_src__ is {src!r}, not the class itself — partial classes must be per class object, not per name", case={"kind": "partial-src", "family": FAMILY, "name": cname}, fns=FNS_CONV + ["schema/partial.py:PartialFactory.get_partial"])
         # 0. round trip complete -> partial -> complete (generated + installed); availability of the partial classes
         SR = fam["TopReq"]
         lawsR = Laws(rec, Ctx(SR, fam, tmp), "G:TopReq", {"family": FAMILY, "name": "TopReq"})
@@ -840,6 +853,10 @@ def run(tier: str, seed: int) -> dict:
 
 def replay(case: dict):
     rec = Recorder("C14", "c14", max_violations=50)
+    if case.get("kind") == "partial-src":
+        f1, f2 = sl.build_family(case["family"]), sl.build_family(case["family"], fresh=True)
+        bad = [f"{tag} {case['name']}: __partial_src__ is {F_[case['name']].Partial.__partial_src__!r}" for F_, tag in ((f1, "first"), (f2, "second")) if F_[case["name"]].Partial.__partial_src__ is not F_[case["name"]]]
+        return (True, "c14:partial-of-another-class :: " + "; ".join(bad)) if bad else (False, "each of two same-named classes has a partial class of its own")
     with tmpdir() as tmp:
         sref = case["schema"]
         if "installed" in sref:
